@@ -578,7 +578,7 @@ impl PropImpl for C07 {
          multi-line value or >= 2 paragraphs and at least one non-default setting. Distinct by hash of (text, settings).".into()
     }
     fn budget(&self, tier: Tier) -> Budget {
-        Budget { cases_per_lane: if tier == Tier::Quick { 2000 } else { 40_000 }, tape_max: 700, cpu_s: 10 }
+        Budget { cases_per_lane: if tier == Tier::Quick { 10000 } else { 40_000 }, tape_max: 700, cpu_s: 10 }
     }
     fn spaces(&self, _tier: Tier) -> Vec<Space> {
         vec![Space { name: "settings grid (5x2x5x3x4x4x3) x 5 layouts".into(), size: GRID * GRID_LAYOUTS.len() as u64, exhaustive: true }]
